@@ -271,6 +271,17 @@ pub fn gen(prop: &str, tier: &str, seed: u64, out: &mut Vec<String>) {
                     out.push(format!("serde err:io:{k}:{}", hexs(m)));
                     out.push(format!("serde item:error:io:{k}:{}", hexs(m)));
                 }
+                // the same kind without a custom payload (std's own description is the message)
+                let e = std::io::Error::from(crate::ops3::io_kind_of_name(k));
+                out.push(format!("serde err:ios:{k}:{}", hexs(&e.to_string())));
+                out.push(format!("serde item:error:ios:{k}:{}", hexs(&e.to_string())));
+            }
+            // OS errors (message produced by the platform, no payload)
+            for errno in [1, 2, 4, 5, 9, 11, 12, 13, 17, 20, 21, 22, 28, 32, 104, 110, 111, 9999] {
+                let e = std::io::Error::from_raw_os_error(errno);
+                let k = format!("{:?}", e.kind());
+                out.push(format!("serde err:ioo:{errno}:{k}:{}", hexs(&e.to_string())));
+                out.push(format!("serde item:error:ioo:{errno}:{k}:{}", hexs(&e.to_string())));
             }
         }
         _ => {}
